@@ -20,3 +20,5 @@ def run(prog, rep):
     r_io.run_strio(prog, rep)
     r_codec.run_datatype(prog, rep)
     r_null.run_strings(prog, rep)
+    r_io.run_dcpl(prog, rep)
+    r_io.run_growable(prog, rep)
